@@ -25,8 +25,10 @@ against the physical envelope InEnvelope of Battery.tla.
 import copy
 import json
 import math
+import os
 import random
 import warnings
+from concurrent.futures import ThreadPoolExecutor
 from datetime import datetime
 from unittest.mock import patch
 
@@ -480,9 +482,6 @@ def _trace_binding(rep, prop, seed, ntraces):
 
 
 # ----------------------------------------------------------------------------- the checks
-import os
-from concurrent.futures import ThreadPoolExecutor
-
 _BUDGET = int(os.environ.get("VERIF_WORKERS", "0")) or min(16, os.cpu_count() or 1)
 ACTS = ["DoCharge", "Reset", "Finish"]
 
@@ -513,23 +512,24 @@ def _selftest_replay(rep, bhvs, laws):
     """The binding must reject a behaviour whose recorded spec state is corrupted in one field."""
     for b in bhvs:
         ch = [n for n, o in enumerate(b["ops"]) if o["op"] == "charge" and o["eLo"] > 0]
-        if not ch:
+        if not ch or not all(o["dec"] for o in b["ops"]):
             continue
         if run_sequence(b, PHYS[0], laws=laws)[0] is not None:
             continue  # a genuine mismatch: reported by the replay proper
+        o = b["ops"][ch[0]]
         c = copy.deepcopy(b)
-        c["ops"][ch[0]]["lo"] += 4096  # 1e-4 of the capacity
-        c["ops"][ch[0]]["hi"] += 4096
+        c["ops"][ch[0]]["lo"] += o["hi"] - o["lo"] + 4096  # bracket width + 1e-4 of the capacity
+        c["ops"][ch[0]]["hi"] += o["hi"] - o["lo"] + 4096
         d, _ = run_sequence(c, PHYS[0], laws=laws)
         if d is None or d["field"] != "law-charge":
             raise RuntimeError("replay self-test: a corrupted spec charge was not rejected (%r)" % (d,))
         c = copy.deepcopy(b)
-        c["ops"][ch[0]]["eLo"] += 4096
-        c["ops"][ch[0]]["eHi"] += 4096
+        c["ops"][ch[0]]["eLo"] += o["eHi"] - o["eLo"] + 4096
+        c["ops"][ch[0]]["eHi"] += o["eHi"] - o["eLo"] + 4096
         d, _ = run_sequence(c, PHYS[0], laws=laws)
         if d is None or d["field"] != "law-rate":
             raise RuntimeError("replay self-test: a corrupted spec energy was not rejected (%r)" % (d,))
-        rep.notes.append("replay self-test: the same behaviour with one spec field shifted by 1e-4 of the capacity was rejected "
+        rep.notes.append("replay self-test: the same behaviour with one spec field shifted by its bracket width + 1e-4 of the capacity was rejected "
                          "(law-charge, law-rate)")
         return
     rep.notes.append("replay self-test skipped: no behaviour agrees with the implementation")
@@ -556,12 +556,12 @@ def check_C03(tier, seed):
     else:
         jobs = [dict(mc=1, w=4, what="exhaustive, ideal+stepwise full lattice, sequences of 2: " + inv, cfg="Battery_mc",
                      overrides={"K": K}),
-                dict(mc=1, w=2, what="exhaustive, ideal+stepwise, sequences of 3: " + inv, cfg="Battery_mc",
-                     overrides=dict(small, Bats="<- BatsExactMid", MaxOps="= 3", Durs="= {2}")),
+                dict(mc=1, w=3, what="exhaustive, ideal+stepwise, sequences of 4: " + inv, cfg="Battery_mc",
+                     overrides=dict(small, Bats="<- BatsExactMid", MaxOps="= 4", Durs="= {2}")),
                 dict(mc=1, w=2, what="exhaustive, continuous enclosure, sequences of 2: " + inv, cfg="Battery_mc",
                      overrides=dict(small, Bats="<- BatsContMid", Durs="= {2}")),
-                dict(mc=1, w=4, what="exhaustive, continuous enclosure, sequences of 3: " + inv, cfg="Battery_mc",
-                     overrides=dict(small, Bats="<- BatsContSmall", MaxOps="= 3", Durs="= {2}"))]
+                dict(mc=1, w=5, what="exhaustive, continuous enclosure, sequences of 4: " + inv, cfg="Battery_mc",
+                     overrides=dict(small, Bats="<- BatsContSmall", MaxOps="= 4", Durs="= {2}"))]
     nmc = len(jobs)
     # (B) spec -> code: generation
     jobs.append(dict(w=2, what="every single call of the %s lattice, emitted for replay" % ("medium" if quick else "full"), cfg="Battery_gen",
@@ -628,7 +628,9 @@ def check_C14(tier, seed):
     _selftest_replay(rep, bh, True)
     n, _ = _replay_all(rep, "C14", bh, seed, nphys, True, 0, 1 if quick else max(1, min(8, _BUDGET)))
     rep.exhaustive = True
-    rep.notes.append("all %d emitted behaviours replayed with every probe of every visited state" % n)
+    nprobes = sum(len(o["tab"]) for b in bh for o in b["ops"]) * nphys
+    rep.notes.append("all %d emitted behaviours replayed; %d probe calls (state x pilot x duration x physical triple) compared with "
+                     "the spec's table, each also split in two halves on the real battery" % (n, nprobes))
     rep.sample(bh[len(bh) // 3])
     rep.sample(bh[-1])
     return rep.finish()
